@@ -66,6 +66,10 @@ type Subscription struct {
 type reference struct {
 	sub   *Subscription
 	count int
+	// unsent is true while the reference comes from an event that is yet to be
+	// sent to the client (it waits for the referenced resource to be loaded).
+	// Such a reference is not counted in the indirectsent of sub.
+	unsent bool
 }
 
 type readyCallback struct {
@@ -516,7 +520,7 @@ func containsString(path []string, rid string) bool {
 
 func (s *Subscription) unsubscribeRefs(sent bool) {
 	for _, ref := range s.refs {
-		s.c.Unsubscribe(ref.sub, false, sent, 1, false)
+		s.c.Unsubscribe(ref.sub, false, sent && !ref.unsent, 1, false)
 	}
 	s.refs = nil
 }
@@ -554,7 +558,7 @@ func (s *Subscription) removeReference(rid string) {
 	ref := s.refs[rid]
 	ref.count--
 	if ref.count == 0 {
-		s.c.Unsubscribe(ref.sub, false, s.IsSent(), 1, true)
+		s.c.Unsubscribe(ref.sub, false, s.IsSent() && !ref.unsent, 1, true)
 		delete(s.refs, rid)
 	}
 }
@@ -633,6 +637,9 @@ func (s *Subscription) processCollectionEvent(event *rescache.ResourceEvent) {
 
 			// Start queueing again
 			s.queueEvents(queueReasonLoading)
+			if s.refs[rid].count == 1 {
+				s.refs[rid].unsent = true
+			}
 
 			sub.OnReady(func() {
 				// Assert client is still subscribing
@@ -641,6 +648,9 @@ func (s *Subscription) processCollectionEvent(event *rescache.ResourceEvent) {
 					return
 				}
 
+				if ref := s.refs[rid]; ref != nil && ref.sub == sub {
+					ref.unsent = false
+				}
 				r := sub.GetRPCResources(true)
 				s.c.Send(rpc.NewEvent(s.rid, event.Event, rpc.AddEvent{Idx: idx, Value: v.RawMessage, Resources: r}))
 				sub.ReleaseRPCResources()
@@ -733,6 +743,9 @@ func (s *Subscription) processModelEvent(event *rescache.ResourceEvent) {
 
 		// Start queueing again
 		s.queueEvents(queueReasonLoading)
+		for _, sub := range subs {
+			s.refs[sub.rid].unsent = true
+		}
 		count := len(subs)
 		for _, sub := range subs {
 			sub.OnReady(func() {
@@ -746,6 +759,11 @@ func (s *Subscription) processModelEvent(event *rescache.ResourceEvent) {
 					return
 				}
 
+				for _, sub := range subs {
+					if ref := s.refs[sub.rid]; ref != nil && ref.sub == sub {
+						ref.unsent = false
+					}
+				}
 				r := &rpc.Resources{}
 
 				// Legacy behavior
@@ -850,7 +868,7 @@ func (s *Subscription) Unsend() {
 
 	for _, ref := range s.refs {
 		sub := ref.sub
-		if sub.state == stateSent && sub.indirectsent > 0 {
+		if !ref.unsent && sub.state == stateSent && sub.indirectsent > 0 {
 			sub.indirectsent--
 		}
 	}
